@@ -379,6 +379,17 @@ func execClient(h sink, s *state, op string) []line {
 				}
 			}
 		}
+	case "crelaff":
+		// release the host's block affinities (mustBeEmpty: only of empty blocks). An empty block is deleted, a
+		// non-empty one is kept without affinity (read+gc, Affinity = nil, SequenceNumber++).
+		err := c.cl.ReleaseHostAffinities(ctx, ipam.AffinityConfig{AffinityType: ipam.AffinityTypeHost, Host: w[1]}, w[2] == "1")
+		summary = "ok"
+		if err != nil {
+			summary = "err"
+		}
+		for p := range before {
+			expect[p] = fmt.Sprintf("xgc %d", c.cd)
+		}
 	default:
 		panic("unknown client op " + op)
 	}
@@ -567,7 +578,16 @@ func genClientCase(h *rt.H) []string {
 			}
 			emit("crel " + strings.Join(toks, " "))
 		case x < 16:
-			emit(fmt.Sprintf("crelh %d", 1+h.Intn(3)))
+			if h.Chance(0.4) {
+				hh := h.Intn(2)
+				emit(fmt.Sprintf("crelaff h%d %d", hh, h.Intn(2)))
+				if h.Bool() {
+					// whoever claims the released CIDRs next must not get an address that is still cooling down
+					emit(fmt.Sprintf("cauto h%d %d %d 0", hh, h.Intn(4), rt.Pick(h, []int{1, 2, per + 1})))
+				}
+			} else {
+				emit(fmt.Sprintf("crelh %d", 1+h.Intn(3)))
+			}
 		case x < 17:
 			// an address in cooldown, named with the sequence number stamped at its release, after the cooldown
 			// expired and before anybody rewrote the block: the read-side garbage collection must clear it first
